@@ -25,13 +25,14 @@ def cuts(g, cfg, line):
 def run(tier):
     c = Check("C06", tier)
     exe = driver("asan")
+    # 27: string vectors with a case format and unique data (the formatted element is the one that is compared)
     # 17/18: growing bit sets (vector<bool>, DynamicBitset; 18 with unsetFlag), 19: key-value container (std::map)
     if tier == "quick":
-        cfgs, beh = model_behaviours(c, tier, cfgsel=[4, 6, 9, 10, 11, 12, 17, 18, 19])
+        cfgs, beh = model_behaviours(c, tier, cfgsel=[4, 6, 9, 10, 11, 12, 17, 18, 19, 27])
     else:
         # the configurations added later keep two uses per line in the thorough tier (budget), like configuration 16 in C03
         cfgs, beh = model_behaviours(c, tier, cfgsel=[4, 10], maxuses=3)
-        cfgs2, beh2 = model_behaviours(c, tier, cfgsel=[6, 9, 11, 12, 17, 18, 19], maxuses=2)
+        cfgs2, beh2 = model_behaviours(c, tier, cfgsel=[6, 9, 11, 12, 17, 18, 19, 27], maxuses=2)
         beh += beh2
     script = os.path.join(c.wd, "replay.ndjson")
     n = behaviours_script(cfgs, beh, script)
@@ -71,6 +72,26 @@ def run(tier):
                 continue
             line = [[i, vals]]
             for variant in (line, cuts(g, cfg, line)):
+                acts.append(eval_action(g.spell_line(cfg, variant), tag={"k": "line", "line": line_json(variant)}))
+        blocks.append((cfg, acts))
+    # formats and unique data together: values that differ only in case are duplicates once they are formatted (dropped or
+    # refused); given in one list, over repeated uses and as free values, with and without sorting
+    pool = ["abc", "ABC", "Abc", "x", "X", "q7", "Q7", "zz"]
+    for _ in range(60 if tier == "quick" else 1500):
+        cfg = g.cfg(nargs=g.r.randint(1, 3), kinds=["vecstr", "vecstr", "flag"], constraints=False, allow_pos=False)
+        conts = [i + 1 for i, a in enumerate(cfg["args"]) if a["kind"] == "vecstr"]
+        if not conts:
+            continue
+        for i in conts:
+            a = cfg["args"][i - 1]
+            a["formats"] = [g.r.choice(["upper", "lower"])]; a["checks"] = []; a["card"] = {"t": "dflt", "a": 0, "b": 0}; a["mand"] = False
+            a["multi"] = g.r.random() < 0.5; a["uniq"] = g.r.choice(["ignore", "ignore", "error"]); a["sort"] = g.r.random() < 0.3
+            a["clear"] = g.r.random() < 0.2
+            a["init"] = [T(g.r.choice(["ABC", "x"]) if a["formats"] == ["upper"] else g.r.choice(["abc", "X"]))] if g.r.random() < 0.3 else []
+        acts = []
+        for _ in range(nlines):
+            line = [[i, [g.r.choice(pool) for _ in range(g.r.randint(1, 5))]] for i in g.r.sample(conts, g.r.randint(1, len(conts)))]
+            for variant in (line, cuts(g, cfg, line), cuts(g, cfg, line)):
                 acts.append(eval_action(g.spell_line(cfg, variant), tag={"k": "line", "line": line_json(variant)}))
         blocks.append((cfg, acts))
     script2 = os.path.join(c.wd, "random.ndjson")
